@@ -71,4 +71,116 @@ def read (cfg : Cfg) (Z : Bytes → GzRes) (eof : Bool) : Nat → Bytes → Opti
 def readAll (cfg : Cfg) (Z : Bytes → GzRes) (s : Bytes) (eof : Bool) : Option Res :=
   read cfg Z eof (s.length + 1) s
 
+/-! ### the strict reader proper: the framing decision stated without the model
+
+`read` above takes the framing decision (`readBody` = `clStep`/`chStep`/`framingOf`) from the model.  `strictRead`
+below is the same batch reader with that decision replaced by `framing`, written directly from RFC 9112 §6.3 and
+RFC 9110 §8.6 over the two field values `headers["Content-Length"]` / `headers["Transfer-Encoding"]` (C06: all field
+lines of a name joined by ","); nothing of `clStep` / `chStep` / `framingOf` / `splitCommaWs` / `isReSpace` is used.
+`strictReadAll` is the oracle of the harness.  `Props.lean` relates the two (`readBody_eq_strict`,
+`strict_accepts_sound`, `strictRead_eq`). -/
+
+/-- optional whitespace of RFC 9110 §5.6.3: SP / HTAB -/
+def isOws (c : Nat) : Bool := c = 32 || c = 9
+
+/-- `headers[name]` when the field is present -/
+def field (h : Headers) (name : Str) : Option Str :=
+  if contains h name then
+    match getItem h name with
+    | .ok (v, _) => some v
+    | .error _ => none
+  else none
+
+/-- RFC 9110 §8.6: `Content-Length = 1*DIGIT`; a recipient may read a list of identical members `n, n, …` (OWS after
+    each comma) as `n`.  Returns that single member (not yet checked to be a number). -/
+def clMember (v : Str) : Option Str :=
+  match splitOnC 44 v with
+  | [] => none
+  | p :: ps => if ps.all (fun q => q.dropWhile isOws == p) then some p else none
+
+/-- the framing of a final response that may have a body (not HEAD, not 304), RFC 9112 §6.3:
+    both fields ⇒ reject; Transfer-Encoding must be exactly `chunked`; Content-Length a number (or list of the same
+    number) within the limit; 204 has no body and must not announce one; neither field ⇒ until close. -/
+def framing (code : Nat) (cl te : Option Str) (maxBody : Nat) : Option Framing :=
+  match te, cl with
+  | some _, some _ => none
+  | some t, none => if t.map lowerC = sChunked then (if code = 204 then none else some .chunked) else none
+  | none, some v =>
+    match (clMember v).bind parseDec with
+    | none => none
+    | some n =>
+      if n > maxBody then none
+      else if code = 204 then (if n = 0 then some (.fixed 0) else none)
+      else some (.fixed n)
+  | none, none => if code = 204 then some (.fixed 0) else some .close
+
+/-- the header fields handed to the application: as received, a Content-Length list collapsed to its member -/
+def shown (h : Headers) : List (Str × Str) :=
+  match field h sContentLength with
+  | none => getAll h
+  | some v =>
+    if v.contains 44 then
+      match clMember v with
+      | some p => getAll (setItem h sContentLength p)
+      | none => getAll h
+    else getAll h
+
+def presentL (cfg : Cfg) (Z : Bytes → GzRes) (code : Nat) (reason : Str) (h : List (Str × Str)) (gz : Bool)
+    (raw : Bytes) : Option Res :=
+  if gz && !raw.isEmpty then
+    let r := Z raw
+    if r.st = .complete && r.out.length ≤ cfg.maxBody then some (.ok code reason h r.out) else none
+  else some (.ok code reason h raw)
+
+/-- read one final response (skipping 1xx interim responses) from the whole stream, framing by `framing` -/
+def strictRead (cfg : Cfg) (Z : Bytes → GzRes) (eof : Bool) : Nat → Bytes → Option Res
+  | 0, _ => none
+  | f + 1, s =>
+    match findHeadEnd s with
+    | none => none
+    | some e =>
+      match parseHead (s.take e) with
+      | none => none
+      | some ((_, code, reason), h0) =>
+        let rest := s.drop e
+        if 100 ≤ code && code < 200 then
+          if contains h0 sContentLength || contains h0 sTransferEncoding then none
+          else strictRead cfg Z eof f rest
+        else
+          let (h, gz) := if cfg.decompress then gzipRewrite h0 else (h0, false)
+          if cfg.isHead || code = 304 then presentL cfg Z code reason (getAll h) gz []
+          else match framing code (field h sContentLength) (field h sTransferEncoding) cfg.maxBody with
+            | none => none
+            | some fr =>
+              match body cfg.maxBody eof fr rest with
+              | none => none
+              | some raw => presentL cfg Z code reason (shown h) gz raw
+
+def strictReadAll (cfg : Cfg) (Z : Bytes → GzRes) (s : Bytes) (eof : Bool) : Option Res :=
+  strictRead cfg Z eof (s.length + 1) s
+
+/-- the header object of the final response whose framing has to be decided (after the gzip rewrite), if the
+    reader gets that far -/
+def finalHeaders (cfg : Cfg) : Nat → Bytes → Option Headers
+  | 0, _ => none
+  | f + 1, s =>
+    match findHeadEnd s with
+    | none => none
+    | some e =>
+      match parseHead (s.take e) with
+      | none => none
+      | some ((_, code, _), h0) =>
+        if 100 ≤ code && code < 200 then
+          if contains h0 sContentLength || contains h0 sTransferEncoding then none
+          else finalHeaders cfg f (s.drop e)
+        else if cfg.isHead || code = 304 then none
+        else some (if cfg.decompress then gzipRewrite h0 else (h0, false)).1
+
+/-- the members of a Content-Length list are separated by a comma and SP / HTAB only: no member starts (after
+    the OWS) with another character of Python's `\s` (in a parsed header value: NEL 0x85, NBSP 0xA0) -/
+def clOws (h : Headers) : Bool :=
+  match field h sContentLength with
+  | none => true
+  | some v => (splitOnC 44 v).tail.all (fun q => q.dropWhile isReSpace == q.dropWhile isOws)
+
 end TornadoModel.C08.Spec
